@@ -57,6 +57,14 @@ PROPS = {
         real=['network::BufferedFd', 'network::TcpConnection', 'network::TcpServer + TcpAcceptor', 'network::TcpClient + TcpConnector', 'util::Buffer', 'util::Fd', 'event loop (epoll/select)', 'kernel AF_UNIX stream sockets'],
         stub=['the remote peer (raw descriptor driven by the plan)', 'write/read outcomes at the syscall seam (short writes/reads, EAGAIN injected)', 'monotonic clock'],
     ),
+    'C12': dict(
+        harness='c12_http',
+        title='HTTP server',
+        flavours=dict(asan=dict(quick_s=35, thorough_s=600)),
+        mode='single',
+        real=['http::server::Server / Impl / Context', 'http RequestParser, Url, Request, Respond', 'network::TcpServer/TcpAcceptor/TcpConnection/BufferedFd', 'eventx::TimerPool (late handlers)', 'event loop'],
+        stub=['the HTTP client (raw AF_UNIX socket; segmentation, pacing and disconnects from the plan)', 'syscall outcomes on the server side (short/EAGAIN)', 'monotonic clock'],
+    ),
 }
 
 NOT_APPLICABLE = {
@@ -68,4 +76,4 @@ NOT_APPLICABLE = {
 
 # planned in DESIGN.md §7 but whose harness is not built yet — not claimed until it is
 PENDING = {p: 'harness not built yet (planned in DESIGN.md §7); not claimed until the check exists' for p in
-           ['C04', 'C09', 'C11', 'C12', 'C13', 'C14', 'C15', 'C17', 'C18', 'C20']}
+           ['C04', 'C09', 'C11', 'C13', 'C14', 'C15', 'C17', 'C18', 'C20']}
